@@ -152,6 +152,8 @@ pub fn run_case(image: &Image, dir: std::path::PathBuf, o: &Opt) -> Result<Strin
     if let Some(d) = out.duplicate {
         return Err(("duplicate-item".into(), format!("{o:?}: {d}")))
     }
+    // what is handed to routers is the snapshot's content, each item once
+    out.served_matches().map_err(|e| ("served-differs-from-snapshot".to_string(), format!("{o:?}: {e}")))?;
     let (eo, ek, ea) = expected(image, o);
     if out.data.origins != eo {
         let extra: Vec<String> = out.data.origins.difference(&eo).map(data::fmt_origin).collect();
